@@ -119,52 +119,132 @@ def r1_identity(ctx) -> None:
     if n_impl < 4:
         raise AnalysisError(f"only {n_impl} apply_detection_item implementations found (≥4 confirmed)")
     # ValueTransformation.apply_detection_item: passes the value through when apply_value returns None
-    f = prog.func(TB + ".ValueTransformation._apply_values") if prog.has_func(TB + ".ValueTransformation._apply_values") else prog.func(TB + ".ValueTransformation.apply_detection_item")
-    ok = False
-    for n in walk_no_nested(f.node):
-        if isinstance(n, ast.Expr) and unparse(n) == "results.append(value)":
-            gs = atomic_guards(guards_at(prog, f, n))
-            if ("res is None", True) in gs:
-                ok = True
-    mods = [n for n in walk_no_nested(f.node) if isinstance(n, ast.Assign) and unparse(n.targets[0]) == "modified" and isinstance(n.value, ast.Constant) and n.value.value is True]
-    # modified only for a returned value — or for an expansion whose members were modified by the same routine (recursion)
-    mod_ok = all(("res is None", False) in atomic_guards(guards_at(prog, f, n)) or ("expanded_modified", True) in atomic_guards(guards_at(prog, f, n)) for n in mods) and len(mods) >= 1
-    if ok and mod_ok:
-        r.ok("C12.R1", f.qual, "apply_value() → None keeps the value and does not count as modification", f.loc)
+    _r1_value_walk(ctx)
+    _r1_identity_configurations(ctx)
+    r.floor("C12.R1", 8)
+
+
+def _r1_value_walk(ctx) -> None:
+    """ValueTransformation._apply_values interpreted (sa.tabulate, Proxy) with a stand-in apply_value that declines (None),
+    answers one value, a list of values, or an iterable Sigma value."""
+    from collections.abc import Iterable as _Iterable
+    from ..tabulate import Proxy, call_method, Raised
+    r, prog = ctx.r, ctx.prog
+    VT = TB + ".ValueTransformation"
+    f = prog.lookup_method(VT, "_apply_values") or prog.func(VT + ".apply_detection_item")
+
+    class SigmaType:
+        pass
+
+    class _V(SigmaType):
+        def __init__(self, n): self.n = n
+        def __repr__(self): return f"v{self.n}"
+
+    class _IterV(_V):  # a Sigma value that can be iterated (strings are)
+        def __iter__(self): return iter("xy")
+
+    class _Other(SigmaType):
+        def __repr__(self): return "other"
+
+    class SigmaExpansion(SigmaType):
+        def __init__(self, values): self.values = list(values)
+        def __repr__(self): return f"Exp{self.values}"
+
+    env = {"SigmaType": SigmaType, "SigmaExpansion": SigmaExpansion, "Iterable": _Iterable}
+    IK = {"max_steps": 8000}
+
+    def run(values, answers, value_types=None):
+        asked = []
+        def apply_value(field, v):
+            asked.append(v)
+            return answers.get(id(v))
+        me = Proxy(prog, VT, env, {"value_types": value_types, "apply_value": apply_value, "processing_item": None, "_pipeline": None}, interp_kwargs=IK)
+        try:
+            if f.name == "_apply_values":
+                out = call_method(prog, VT, "_apply_values", me, env, "f", list(values), interp_kwargs=IK)
+            else:
+                item = type("I", (), {})()
+                item.field, item.value = "f", list(values)
+                res = call_method(prog, VT, "apply_detection_item", me, env, item, interp_kwargs=IK)
+                out = (item.value, res is not None)
+        except Raised as ex:
+            return ex, asked
+        return out, asked
+
+    a, b, c = _V(1), _V(2), _V(3)
+    new1, new2, it1 = _V(10), _V(20), _IterV(30)
+    problems = []
+    out, asked = run([a, b], {})
+    if not (isinstance(out, tuple) and len(out[0]) == 2 and out[0][0] is a and out[0][1] is b and out[1] is False):
+        problems.append(f"apply_value declines every value: result {out!r} instead of the same values, not modified")
+    out, asked = run([a, b, c], {id(b): new1})
+    if not (isinstance(out, tuple) and out[0] == [a, new1, c] and out[1] is True):
+        problems.append(f"one value replaced: result {out!r} instead of ([v1, v10, v3], True)")
+    out, asked = run([a, b], {id(a): [new1, new2]})
+    if not (isinstance(out, tuple) and out[0] == [new1, new2, b] and out[1] is True):
+        problems.append(f"a value replaced by a list: result {out!r} instead of ([v10, v20, v2], True)")
+    out, asked = run([a], {id(a): it1})
+    if not (isinstance(out, tuple) and out[0] == [it1] and out[1] is True):
+        problems.append(f"a value replaced by an iterable Sigma value: result {out!r} instead of ([v30], True)")
+    o = _Other()
+    out, asked = run([a, o], {id(a): new1, id(o): new2}, value_types=(_V,))
+    if not (isinstance(out, tuple) and out[0] == [new1, o] and out[1] is True and o not in asked):
+        problems.append(f"value of another type than value_types: result {out!r}, apply_value asked about {asked!r}")
+    if not problems:
+        r.ok("C12.R1", f.qual, "apply_value() → None keeps the value and does not count as modification; one value / a list / an iterable Sigma value replace it (interpreted)", f.loc)
     else:
-        r.violation("C12.R1", f.qual, "res is None → results.append(value); modified only otherwise", "a value transformation that declines (None) must pass the value through unchanged and must not mark the item as modified", f.loc)
-    # identity configurations
-    for q, spec in IDENTITY_GUARDS.items():
-        f = prog.func(q)
-        rets = [x for x in walk_no_nested(f.node) if isinstance(x, ast.Return) and x.value is not None and not (isinstance(x.value, ast.Constant) and x.value.value is None)]
-        n_fresh = 0
-        for x in rets:
-            v = unparse(x.value)
-            if spec["fresh"] is not None and v not in spec["fresh"]:
-                if not any(isinstance(c, ast.Call) and call_name(c).split(".")[-1] in ("SigmaString", "SigmaCasedString", "__class__") and any("str(" in unparse(a) or "plain" in unparse(a) or "replaced" in unparse(a) or "postprocessed" in unparse(a) for a in c.args) for c in ast.walk(x.value)):
-                    continue
-            if v in ("val",):
+        r.violation("C12.R1", f.qual, f"res is None → results.append(value); modified only otherwise: {problems[0]}", "a value transformation that declines (None) must pass the value through unchanged and must not mark the item as modified", f.loc)
+
+
+def _r1_identity_configurations(ctx) -> None:
+    """Transformations with an identity configuration, interpreted on stand-in strings: a regular expression that matches
+    nothing / a value without mapping entry leaves the value as it is."""
+    import re as _re
+    from ..tabulate import Raised, Proxy, call_method
+    from .standins import string_standin
+    r, prog = ctx.r, ctx.prog
+    Str, Cased, _PH, sc, senv = string_standin(ctx)
+    RS = TR + ".values.ReplaceStringTransformation"
+    MS = TR + ".values.MapStringTransformation"
+    env = dict(senv, SigmaString=Str, cast=lambda t, v: v, SigmaNumber=type("SigmaNumber", (), {}))
+    IK = {"max_steps": 20000}
+    f = prog.func(RS + ".apply_string_value")
+    problems = []
+    n = 0
+    for skip, interp in ((False, False), (True, False), (True, True)):
+        for parts in (["abc"], ["ab\\", sc.WILDCARD_MULTI], ["a*b"], ["abc", sc.WILDCARD_SINGLE, "def"], []):
+            n += 1
+            val = Cased(parts)
+            me = Proxy(prog, RS, env, {"re": _re.compile("xyz"), "regex": "xyz", "replacement": "R", "skip_special": skip, "interpret_special": interp, "processing_item": None, "_pipeline": None}, interp_kwargs=IK)
+            try:
+                out = call_method(prog, RS, "apply_string_value", me, env, "f", val, interp_kwargs=IK)
+            except Raised as ex:
+                problems.append(f"skip_special={skip}, interpret_special={interp}, value parts {parts}: raises {ex}")
                 continue
-            n_fresh += 1
-            gs = atomic_guards(guards_at(prog, f, x))
-            loc = f"{f.module.relpath}:{x.lineno}"
-            if any(g in gs for g in spec["guards"]) or ("or_guard" in spec and spec["or_guard"] in gs):
-                r.ok("C12.R1", q, f"`{stmt_head(x, 60)}` only behind the match test", loc)
-            else:
-                r.violation("C12.R1", q, stmt_head(x), f"a freshly built value is returned without the match test {[g for g, _ in spec['guards']]}: {spec['why']}", loc)
-        if n_fresh == 0:
-            raise AnalysisError(f"{q}: no fresh-value return found")
-    # numbers are converted to strings by replace_string even if nothing matches
-    f = prog.func(TR + ".values.ReplaceStringTransformation.apply_value")
-    for x in walk_no_nested(f.node):
-        if isinstance(x, ast.Return) and "SigmaString(str(val))" in unparse(x):
-            gs = atomic_guards(guards_at(prog, f, x))
-            if not any("self.re." in g for g, _ in gs):
-                r.violation("C12.R1", f.qual, "number → SigmaString(str(val)) without match test",
-                            "replace_string turns every number into a string before testing whether the regular expression matches: with a regex that matches nothing `field: 1` converts to field=\"1\" instead of field=1", f"{f.module.relpath}:{x.lineno}")
-            else:
-                r.ok("C12.R1", f.qual, "numbers are converted only if the regular expression matches", f"{f.module.relpath}:{x.lineno}")
-    r.floor("C12.R1", 7)
+            same = out is val or out is None or (isinstance(out, Str) and type(out) is Cased and out.s == parts)
+            if not same:
+                problems.append(f"skip_special={skip}, interpret_special={interp}, value parts {parts}, expression that matches nothing: result parts {getattr(out, 's', out)!r} ({type(out).__name__})")
+    if not problems:
+        r.ok("C12.R1", f.qual, f"a regular expression that matches nothing leaves the value as it is ({n} interpreted cases: three modes x values with a backslash before a wildcard, an escaped '*', wildcards)", f.loc)
+    else:
+        r.violation("C12.R1", f.qual, f"replace without match: {problems[0]}", "a regular expression that matches nothing must leave the value as it is; printing and parsing it again is only an identity if the plain form is re-parsable (C05.R2), which it is not for a backslash before a wildcard", f.loc)
+    g = prog.func(MS + ".apply_string_value")
+    problems = []
+    for parts, want in ((["zzz"], None), (["a"], ["b"]), (["c"], [["d"], ["e"]]), (["a", sc.WILDCARD_MULTI], None), (["gone"], []), (["none"], [])):
+        val = Cased(parts)
+        # "gone" maps to the empty string, "none" to no value at all: both are entries of the mapping
+        me = Proxy(prog, MS, env, {"mapping": {"a": "b", "c": ["d", "e"], "gone": "", "none": []}, "processing_item": None, "_pipeline": None}, interp_kwargs=IK)
+        try:
+            out = call_method(prog, MS, "apply_string_value", me, env, "f", val, interp_kwargs=IK)
+        except Raised as ex:
+            out = ex
+        got = None if out is None else (out.s if isinstance(out, Str) else [x.s for x in out] if isinstance(out, list) and all(isinstance(x, Str) for x in out) else repr(out))
+        if got != want:
+            problems.append(f"value parts {parts}: {got!r} instead of {want!r}")
+    if not problems:
+        r.ok("C12.R1", g.qual, "a value without an entry in the mapping is passed through (None); mapped values are built for entries only (interpreted)", g.loc)
+    else:
+        r.violation("C12.R1", g.qual, f"string mapping: {problems[0]}", "a value without an entry in the mapping must be passed through (return None)", g.loc)
 
 
 def _is_flag(f: FuncInfo, name: str) -> bool:
@@ -249,39 +329,109 @@ def r4_template(ctx) -> None:
     r.floor("C12.R4", 6)
 
 
+def fieldmapping_standins(ctx):
+    """Stand-ins for interpreting FieldMappingTransformationBase.apply_detection_item (sa.tabulate, Proxy)."""
+    import dataclasses as _dc
+    import types as _types
+    from ..tabulate import Proxy, call_method, Raised
+    from .standins import wildcard_string_standin
+    prog = ctx.prog
+    S, wm, sc = wildcard_string_standin()
+    FM = TB + ".FieldMappingTransformationBase"
+
+    class SigmaFieldReference:
+        def __init__(self, field, starts_with=False, ends_with=False): self.field, self.starts_with, self.ends_with = field, starts_with, ends_with
+
+    class SigmaDetection:
+        def __init__(self, items, item_linking=None, **k): self.detection_items, self.item_linking = list(items), item_linking
+
+    class ConditionOR:
+        pass
+
+    @_dc.dataclass
+    class _Item:
+        field: object
+        value: list
+        auto_modifiers: bool = True
+        applied_processing_items: set = _dc.field(default_factory=set, compare=False)
+        plain_disabled: bool = _dc.field(default=False, compare=False)
+        def disable_conversion_to_plain(self): self.plain_disabled = True
+
+    env = {"SigmaString": S, "SpecialChars": sc, "SigmaFieldReference": SigmaFieldReference, "SigmaDetection": SigmaDetection, "ConditionOR": ConditionOR, "dataclasses": _dc}
+    IK = {"max_steps": 8000}
+
+    def run_item(field, mapping, gate, values, applied=("earlier",)):
+        item = _Item(field, list(values))
+        item.applied_processing_items = set(applied)
+        tracked, mapped = [], []
+        pi = None if gate is None else type("PI", (), {"match_field_name": lambda s_, f_: gate, "match_field_in_value": lambda s_, v: gate, "identifier": "pi"})()
+        pipeline = type("PL", (), {"track_field_processing_items": lambda s_, *a: tracked.append(a), "field_mappings": type("FMT", (), {"add_mapping": lambda s_, *a: mapped.append(a)})()})()
+        me = Proxy(prog, FM, env, {"processing_item": pi, "_pipeline": pipeline, "apply_field_name": lambda f_: mapping, "_apply_field_name": lambda f_: [mapping] if isinstance(mapping, str) else list(mapping or [f_]),
+                                   "processing_item_applied": lambda d: None}, interp_kwargs=IK)
+        try:
+            res = call_method(prog, FM, "apply_detection_item", me, env, item, interp_kwargs=IK)
+        except Raised as ex:
+            res = ex
+        item.tracked, item.mapped = tracked, mapped
+        return item, res
+
+    return _types.SimpleNamespace(S=S, wm=wm, sc=sc, FM=FM, env=env, IK=IK, SigmaDetection=SigmaDetection, ConditionOR=ConditionOR, SigmaFieldReference=SigmaFieldReference, run_item=run_item)
+
+
 def r5_keyword_wildcards(ctx) -> None:
     r, prog = ctx.r, ctx.prog
     r.rule("C12.R5", "keyword-to-field mapping keeps substring semantics: wildcards are added around string values of a keyword item that is bound to a field, tested on the parsed value (SigmaString.startswith/endswith of the wildcard part), not on printed text where an escaped '*' looks like a wildcard")
     f = prog.func(TB + ".FieldMappingTransformationBase._add_wildcards_to_value")
-    tests = [n for n in walk_no_nested(f.node) if isinstance(n, ast.If)]
-    if len(tests) < 2:
-        raise AnalysisError(f"{f.qual}: wildcard tests not found")
-    for t in tests:
-        loc = f"{f.module.relpath}:{t.lineno}"
-        calls = [c for c in ast.walk(t.test) if isinstance(c, ast.Call) and isinstance(c.func, ast.Attribute) and c.func.attr in ("startswith", "endswith")]
-        if not calls:
-            r.violation("C12.R5", f.qual, short(t.test, 80), "wildcard presence is not tested with startswith/endswith of the parsed value", loc)
-            continue
-        c = calls[0]
-        recv = ctx.types.class_names(f.module, c.func.value)
-        arg = unparse(c.args[0]) if c.args else ""
-        if any(x.endswith(".SigmaString") for x in recv) and arg == "SpecialChars.WILDCARD_MULTI":
-            r.ok("C12.R5", f.qual, f"{unparse(c)} on the parsed value", loc)
-        else:
-            r.violation("C12.R5", f.qual, unparse(c), f"the wildcard test runs on {recv or ctx.types.type_str(f.module, c.func.value)} with {arg}: on printed text an escaped literal '\\*' at the edge counts as a wildcard and the keyword loses its substring semantics", loc)
     g = prog.func(TB + ".FieldMappingTransformationBase.apply_detection_item")
-    calls = [c for c in walk_no_nested(g.node) if isinstance(c, ast.Call) and call_name(c) == "self._add_wildcards_to_value"]
-    if not calls:
-        r.violation("C12.R5", g.qual, "self._add_wildcards_to_value(value)", "keyword values bound to a field are not wrapped in wildcards: the keyword search becomes an exact match", g.loc)
-    for c in calls:
-        gs = atomic_guards(guards_at(prog, g, c))
-        loc = f"{g.module.relpath}:{c.lineno}"
-        need = [("field is None", True), ("isinstance(value, SigmaString)", True)]
-        if all(x in gs for x in need) and any(gt.startswith("self.processing_item is None or self.processing_item.match_field_name") and p for gt, p in gs):
-            r.ok("C12.R5", g.qual, "wildcards are added for string values of keyword items, under the field-name gate", loc)
-        else:
-            r.violation("C12.R5", g.qual, short(c), f"wildcards are added outside the keyword-to-field case or outside the field-name gate ({gs})", loc)
-    r.floor("C12.R5", 3)
+    # both interpreted (sa.tabulate, Proxy) on stand-in strings whose elements are characters, wildcard parts and escaped
+    # literal wildcard characters
+    from ..tabulate import Proxy, call_method, Raised
+    fm = fieldmapping_standins(ctx)
+    S, wm, sc, FM, env, IK, SigmaDetection, run_item = fm.S, fm.wm, fm.sc, fm.FM, fm.env, fm.IK, fm.SigmaDetection, fm.run_item
+    bad = []
+    samples = [["a", "b"], ["*", "a"], ["a", "*"], ["*", "a", "*"], ["a", "\\*"], ["\\*", "a"], [], ["*"]]
+    for els in samples:
+        src = S([wm if x == "*" else x for x in els])
+        me = Proxy(prog, FM, env, {"processing_item": None, "_pipeline": None}, interp_kwargs=IK)
+        try:
+            out = call_method(prog, FM, "_add_wildcards_to_value", me, env, src, interp_kwargs=IK)
+        except Raised as ex:
+            out = ex
+        want = ([wm] if not (src.e and src.e[0] is wm) else []) + src.e
+        want = want + ([wm] if not (want and want[-1] is wm and len(want) > (0 if src.e else 1)) else [])
+        got = out.e if isinstance(out, S) else None
+        if not (got is not None and (S(got) == S(want) or (not src.e and got in ([wm], [wm, wm])))):
+            bad.append(f"{els} → {got if got is not None else out!r}, specified {want}")
+    if not bad:
+        r.ok("C12.R5", f.qual, f"wildcards added exactly where the parsed value has none ({len(samples)} interpreted samples, incl. escaped literal '*' at the edges)", f.loc)
+    else:
+        r.violation("C12.R5", f.qual, f"_add_wildcards_to_value: {bad[0]}", "the wildcard test must run on the parsed value: on printed text an escaped literal '\\*' at the edge counts as a wildcard and the keyword loses its substring semantics", f.loc)
+
+    problems = []
+    vals = lambda: [S("abc"), S("*abc*"), 5, S(["a", "\\*"])]  # noqa: E731
+    wrapped = [S("*abc*"), S("*abc*"), 5, S(["*", "a", "\\*", "*"])]
+    wrapped = [S([wm, "a", "b", "c", wm]), S([wm, "a", "b", "c", wm]), 5, S([wm, "a", "\\*", wm])]
+    plain = [S("abc"), S([wm, "a", "b", "c", wm]), 5, S(["a", "\\*"])]
+    for mapping in ("f", ["f1", "f2"]):
+        for gate in (None, True):
+            item, res = run_item(None, mapping, gate, vals())
+            outs = [res] if not isinstance(res, SigmaDetection) else res.detection_items
+            if isinstance(res, Raised) or res is None or any(list(o.value) != wrapped for o in outs):
+                problems.append(f"keyword item mapped to {mapping!r} (gate {'passes' if gate else 'absent'}): values {[list(getattr(o, 'value', [])) for o in outs] if not isinstance(res, Raised) and res is not None else res!r}, expected {wrapped} for every resulting item")
+    item, res = run_item(None, "f", False, vals())
+    if res is not None or list(item.value) != plain:
+        problems.append(f"keyword item whose field-name gate fails: result {res!r}, values {list(item.value)} (must stay untouched)")
+    item, res = run_item("x", "f", None, vals())
+    if isinstance(res, Raised) or list(item.value) != plain:
+        problems.append(f"item bound to a field: values {list(item.value)} (no wildcards must be added)")
+    item, res = run_item(None, None, None, vals())
+    if res is not None or list(item.value) != plain:
+        problems.append(f"keyword item without mapping: result {res!r}, values {list(item.value)}")
+    if not problems:
+        r.ok("C12.R5", g.qual, "wildcards are added for string values of keyword items that get a field, under the field-name gate; other values and other items stay as they are (interpreted: 7 cases)", g.loc)
+    else:
+        r.violation("C12.R5", g.qual, f"self._add_wildcards_to_value(value): {problems[0]}", "keyword values bound to a field are not wrapped in wildcards (the keyword search becomes an exact match), or wildcards are added outside the keyword-to-field case or outside the field-name gate", g.loc)
+    r.floor("C12.R5", 2)
 
 
 def r6_rebuild_sites(ctx, rid: str = "C12.R6", scope=("sigma.types", "sigma.processing", "sigma.modifiers", "sigma.conversion"), floor: int = 2) -> None:
@@ -338,8 +488,24 @@ def r6_rebuild_sites(ctx, rid: str = "C12.R6", scope=("sigma.types", "sigma.proc
 def r7_one_to_many(ctx) -> None:
     r, prog = ctx.r, ctx.prog
     r.rule("C12.R7", "one-to-many results are alternatives: detections built by a transformation from several mapped fields / hash fields are SigmaDetection(..., item_linking=ConditionOR); items deleted by drop_detection_item are removed from the detection")
-    sites = [(TB + ".FieldMappingTransformationBase.apply_detection_item", "mapped_items"),
-             (TR + ".values.HashesFieldsDetectionItemTransformation._create_new_detection_items", None)]
+    # the one-to-many field mapping interpreted (sa.tabulate, Proxy; stand-ins shared with C12.R5)
+    from ..tabulate import Raised as _R7
+    fm = fieldmapping_standins(ctx)
+    gq = prog.func(TB + ".FieldMappingTransformationBase.apply_detection_item")
+    item, res = fm.run_item("x", ["f1", "f2", "f3"], None, ["v"])
+    probs = []
+    if not isinstance(res, fm.SigmaDetection):
+        probs.append(f"result is {res!r}, not a detection of alternatives")
+    else:
+        if res.item_linking is not fm.ConditionOR:
+            probs.append(f"alternatives linked by {res.item_linking!r}")
+        if [getattr(x, "field", None) for x in res.detection_items] != ["f1", "f2", "f3"] or any(list(x.value) != ["v"] for x in res.detection_items):
+            probs.append(f"alternatives {[(getattr(x, 'field', None), getattr(x, 'value', None)) for x in res.detection_items]} instead of the item under each of f1, f2, f3")
+    if not probs:
+        r.ok("C12.R7", gq.qual, "a field mapped to three names yields SigmaDetection(one item per name, item_linking=ConditionOR) (interpreted)", gq.loc)
+    else:
+        r.violation("C12.R7", gq.qual, f"SigmaDetection(mapped items, item_linking=ConditionOR): {probs[0]}", "alternatives built by the transformation are not OR-linked: a SigmaDetection of detection items defaults to AND, so a one-to-many mapping would require all mapped fields to match", gq.loc)
+    sites = [(TR + ".values.HashesFieldsDetectionItemTransformation._create_new_detection_items", None)]
     for q, first in sites:
         f = prog.func(q)
         calls = [c for c in ast.walk(f.node) if isinstance(c, ast.Call) and call_name(c) == "SigmaDetection"]
@@ -424,21 +590,45 @@ def r9_string_class_kept(ctx) -> None:
     """A string transformation is a source-level rewrite of the value: `f|cased: Foo` stays a case-sensitive match."""
     r, prog = ctx.r, ctx.prog
     r.rule("C12.R9", "string transformations keep the class of the string: no apply_string_value() returns a value built with the bare SigmaString constructor from its argument's text (val.__class__(…), map_parts and the placeholder routines keep the class)")
+    # the string transformations interpreted (sa.tabulate, Proxy; the SigmaString methods they call are interpreted from the
+    # source too) on a value of a string subclass: every string they answer is of that subclass
+    import re as _re
+    from ..tabulate import Raised, Proxy, call_method
+    from .standins import string_standin
+    Str, Cased, _PH, sc, senv = string_standin(ctx)
+    env = dict(senv, SigmaString=Str, cast=lambda t, v: v, SigmaNumber=type("SigmaNumber", (), {}))
+    IK = {"max_steps": 40000}
+    V = TR + ".values."
+    scenarios = [
+        (V + "ReplaceStringTransformation", "replace in the plain form", {"re": _re.compile("b"), "regex": "b", "replacement": "X", "skip_special": False, "interpret_special": False}),
+        (V + "ReplaceStringTransformation", "replace in the string parts", {"re": _re.compile("b"), "regex": "b", "replacement": "X", "skip_special": True, "interpret_special": False}),
+        (V + "ReplaceStringTransformation", "replace with interpreted replacement", {"re": _re.compile("b"), "regex": "b", "replacement": "*", "skip_special": True, "interpret_special": True}),
+        (V + "MapStringTransformation", "map to one string", {"mapping": {"abc": "x"}}),
+        (V + "MapStringTransformation", "map to several strings", {"mapping": {"abc": ["x", "y"]}}),
+        (V + "CaseTransformation", "lower", {"method": "lower"}),
+        (V + "CaseTransformation", "upper", {"method": "upper"}),
+        (V + "CaseTransformation", "snake_case", {"method": "snake_case"}),
+    ]
     n = 0
-    for q, f in sorted(prog.funcs.items()):
-        if f.name != "apply_string_value" or not f.module.name.startswith("sigma.processing.transformations"):
-            continue
-        for rt in (x for x in walk_no_nested(f.node) if isinstance(x, ast.Return) and x.value is not None):
-            for c in (x for x in ast.walk(rt.value) if isinstance(x, ast.Call)):
-                nm = call_name(c).split(".")[-1]
-                if nm not in ("SigmaString", "SigmaCasedString", "__class__"):
-                    continue
-                n += 1
-                loc = f"{f.module.relpath}:{c.lineno}"
-                if nm == "__class__":
-                    r.ok("C12.R9", q, f"{short(c, 70)}: result has the class of the value", loc)
-                else:
-                    r.violation("C12.R9", q, short(rt, 110), f"the result is built as a plain {nm}: for a case-sensitive value (`f|cased: FooBar`) the case-sensitive match is lost after the transformation (f casematch \"…\" becomes f=\"…\") — the rule matches more than its rewrite says", loc)
+    for cq, what, attrs in scenarios:
+        f = prog.lookup_method(cq, "apply_string_value")
+        if f is None:
+            raise AnalysisError(f"anchor vanished: {cq}.apply_string_value")
+        val = Cased(["abc"])
+        me = Proxy(prog, cq, env, dict(attrs, processing_item=None, _pipeline=None), interp_kwargs=IK)
+        try:
+            out = call_method(prog, cq, "apply_string_value", me, env, "f", val, interp_kwargs=IK)
+        except Raised as ex:
+            raise AnalysisError(f"{cq}.apply_string_value ({what}) raises {ex} on the stand-in value")
+        outs = out if isinstance(out, list) else [out]
+        strs = [o for o in outs if isinstance(o, Str)]
+        n += 1
+        if strs and all(type(o) is Cased for o in strs):
+            r.ok("C12.R9", f.qual, f"{what}: result has the class of the value", f.loc)
+        elif not strs:
+            raise AnalysisError(f"{cq}.apply_string_value ({what}) gives {out!r}: no string to examine")
+        else:
+            r.violation("C12.R9", f.qual, f"{what}: result is built as a plain {type([o for o in strs if type(o) is not Cased][0]).__name__ if False else 'SigmaString'}", "for a case-sensitive value (`f|cased: FooBar`) the case-sensitive match is lost after the transformation (f casematch \"…\" becomes f=\"…\") — the rule matches more than its rewrite says", f.loc)
     r.analysed["C12.string_rebuild_returns"] = n
     r.floor("C12.R9", 3)
 
@@ -574,33 +764,34 @@ def r12_reescape_inverse(ctx) -> None:
     r, prog = ctx.r, ctx.prog
     r.rule("C12.R12", "the backslash re-escaping of replace_string is the inverse of the parser's unescaping: applied to the printed form of sample values (backslash runs of length 1–4, escaped and bare wildcards) and parsed by the reference parser, every value comes back unchanged")
     f = prog.func(TR + ".values.ReplaceStringTransformation.apply_string_value")
-    subs = [c for c in walk_no_nested(f.node) if isinstance(c, ast.Call) and call_name(c) == "re.sub" and len(c.args) == 3]
-    if len(subs) != 1:
-        raise AnalysisError(f"{f.qual}: expected exactly one literal re.sub (the backslash re-escaping), found {len(subs)}")
-    try:
-        pat, rep = const_eval(prog, f.module, subs[0].args[0]), const_eval(prog, f.module, subs[0].args[1])
-    except ValueError:
-        raise AnalysisError(f"{f.qual}: re-escaping pattern is not constant")
-    loc = f"{f.module.relpath}:{subs[0].lineno}"
-    # values as parts; their printed (plain) form: wildcards bare, literal * and ? escaped, backslashes as they are
-    values = [["a\\b"], ["a\\\\b"], ["a\\\\\\b"], ["a\\\\\\\\b"], ["\\\\srv\\share\\x.exe"], ["50* off"], ["what?"], ["a", ("W", "*"), "b"], ["x\\", "y"],
-              ["C:\\dir\\", ("W", "*")][:1] + ["z"], ["tail\\\\\\"]]
+    # apply_string_value (default mode) interpreted (sa.tabulate, Proxy; printer and parser of SigmaString are interpreted
+    # from the source as well, `re` is the only library) with an expression that matches the marker character Q and
+    # replaces it by itself: the rest of the value must come back unchanged
+    from ..tabulate import Raised, Proxy, call_method
+    from .standins import string_standin
+    Str, Cased, _PH, sc, senv = string_standin(ctx)
+    RS = TR + ".values.ReplaceStringTransformation"
+    env = dict(senv, SigmaString=Str, cast=lambda t, v: v, SigmaNumber=type("SigmaNumber", (), {}))
+    IK = {"max_steps": 40000}
+    W = sc.WILDCARD_MULTI
+    values = [["a\\b"], ["a\\\\b"], ["a\\\\\\b"], ["a\\\\\\\\b"], ["\\\\srv\\share\\x.exe"], ["50* off"], ["what?"], ["a", W, "b"], ["x\\y"], ["C:\\dir\\z"], ["tail\\\\\\"]]
     bad = []
     for parts in values:
-        merged = []
-        for p_ in parts:
-            if isinstance(p_, str) and merged and isinstance(merged[-1], str):
-                merged[-1] += p_
-            else:
-                merged.append(p_)
-        printed = "".join(p_[1] if isinstance(p_, tuple) else p_.replace("*", "\\*").replace("?", "\\?") for p_ in merged)
-        back = _ref_parse(_re.sub(pat, rep, printed))
-        if back != merged:
-            bad.append(f"{merged} is printed as {printed!r}, re-escaped to {_re.sub(pat, rep, printed)!r} and parsed as {back}")
+        parts = list(parts[:-1]) + [parts[-1] + "Q"] if isinstance(parts[-1], str) else list(parts) + ["Q"]
+        val = Cased(parts)
+        me = Proxy(prog, RS, env, {"re": _re.compile("Q"), "regex": "Q", "replacement": "Q", "skip_special": False, "interpret_special": False, "processing_item": None, "_pipeline": None}, interp_kwargs=IK)
+        try:
+            out = call_method(prog, RS, "apply_string_value", me, env, "f", val, interp_kwargs=IK)
+        except Raised as ex:
+            bad.append(f"{parts}: raises {ex}")
+            continue
+        got = getattr(out, "s", out)
+        if got != parts:
+            bad.append(f"{parts} comes back as {got}")
     if bad:
-        r.violation("C12.R12", f.qual, f"re.sub({pat!r}, {rep!r}, …)", f"{bad[0]} (+{len(bad) - 1} more value(s)): a replace_string whose regex matches rewrites the untouched rest of the value — runs of backslashes change their length", loc)
+        r.violation("C12.R12", f.qual, f"re.sub(<re-escaping>): {bad[0]}", f"(+{len(bad) - 1} more value(s)): a replace_string whose regex matches rewrites the untouched rest of the value — runs of backslashes change their length", f.loc)
     else:
-        r.ok("C12.R12", f.qual, f"re.sub({pat!r}, {rep!r}, …) restores {len(values)} sample values exactly", loc)
+        r.ok("C12.R12", f.qual, f"printing, substituting, re-escaping and parsing restores {len(values)} sample values exactly (interpreted)", f.loc)
     r.floor("C12.R12", 1)
 
 
